@@ -188,6 +188,7 @@ type Sim struct {
 	yieldCount  map[string]int
 	RMWPreempts uint64
 	mapRaces    map[string]bool
+	sqlHeld     []any // *sql.Rows / *sql.Tx handed out to tasks of this process image
 	OnSQL       func() // driver hook: called right before each database statement executes
 	PauseAt     uint64 // hand the baton back to the driver as soon as Step reaches this value (0 = off)
 }
@@ -491,6 +492,36 @@ func Access(site string, mode byte) {
 		return
 	}
 	Yield(site)
+}
+
+// TrackSQL remembers a cursor or transaction a Havoc task obtained. A task that is killed (crash,
+// end of run) cannot close it any more; ReleaseSQL does what the kernel does for a dead process.
+func TrackSQL(x any) {
+	s := cur
+	if s == nil || x == nil {
+		return
+	}
+	if v := reflect.ValueOf(x); v.Kind() == reflect.Ptr && v.IsNil() {
+		return
+	}
+	s.sqlHeld = append(s.sqlHeld, x)
+}
+
+// ReleaseSQL closes every tracked cursor and rolls back every tracked transaction (no-ops for
+// those the code finished itself).
+func (s *Sim) ReleaseSQL() {
+	for _, x := range s.sqlHeld {
+		func() {
+			defer func() { recover() }()
+			switch h := x.(type) {
+			case interface{ Close() error }:
+				h.Close()
+			case interface{ Rollback() error }:
+				h.Rollback()
+			}
+		}()
+	}
+	s.sqlHeld = nil
 }
 
 // MapAccess (R15) stands before a statement that reads (write=false) or writes / deletes from
@@ -863,6 +894,7 @@ func (s *Sim) Close() {
 	if !s.Dead {
 		s.Kill()
 	}
+	s.ReleaseSQL()
 	if cur == s {
 		cur = nil
 	}
